@@ -372,6 +372,11 @@ func cmdCheck(args []string) int {
 		if tier == "thorough" {
 			maxW = 24
 		}
+		// a counterexample that cannot be re-executed (uninterpreted environment answers the replay
+		// cannot honour) is never reported; the exploration is repeated up to twice, since another
+		// order of discovery usually yields a reproducible one for the same defect
+		attempt, inconcMark, notesMark := 0, len(inconc), len(bestEffortNotes)
+	retry:
 		res := g.Explore(hs.Fn, params, nworkers, time.Now().Add(time.Duration(tmo)*time.Second), maxW)
 		results = append(results, res)
 		fmt.Fprintf(os.Stderr, "[%s] %s paths=%d ends=%v queries=%d wall=%v\n", prop, hs.Fn, res.Paths, res.Ends, res.Queries, res.Wall.Round(time.Millisecond))
@@ -422,6 +427,7 @@ func cmdCheck(args []string) int {
 		if len(res.Violations) > maxViolationsPerHarness {
 			res.Violations = res.Violations[:maxViolationsPerHarness]
 		}
+		confirmedBefore := len(confirmed)
 		for _, v := range res.Violations {
 			how, ok := g.confirmViolation(nr, hs.Fn, params, v, native, res.MaxThreads > 1)
 			if ok {
@@ -430,6 +436,13 @@ func cmdCheck(args []string) int {
 			} else {
 				inconc = append(inconc, fmt.Sprintf("%s: counterexample %s did not reproduce (%s) — encoding or stub suspect", hs.Fn, v.Sig, how))
 			}
+		}
+		if len(res.Violations) > 0 && len(confirmed) == confirmedBefore && attempt < 2 {
+			attempt++
+			fmt.Fprintf(os.Stderr, "[%s] %s: no counterexample of this exploration could be re-executed; exploring again (%d)\n", prop, hs.Fn, attempt)
+			inconc, bestEffortNotes = inconc[:inconcMark], bestEffortNotes[:notesMark]
+			results = results[:len(results)-1]
+			goto retry
 		}
 		if len(confirmed) > 0 {
 			// fail fast: the property is violated; the remaining harnesses would only add time
